@@ -8,6 +8,8 @@
     trace returned with any filter setting is exactly the unfiltered trace filtered with the
     observation-level predicate `keepObs` — for every machine set, trace, network, fraction,
     stop setting and random oracle.
+  * `C19_cap_is_prefix`: with a binding cap the result is the prefix of the uncapped result.
+  * `C19_time_never_backwards`: the event `pick_next` returns is never before the clock.
   * `C19_function_of_inputs`: the run is a function of (machines, queue, args, oracle) and, when
     an iteration cap is set, does not depend on the model's own iteration budget.
   * `C19_pickNext_fuel`: `pick_next`'s recursion always terminates within `pickMeasure + 1` calls.
@@ -15,6 +17,7 @@
   * `C19_trace_sorted`: recorded times never go back (the clock is monotone).
 -/
 import MbVerif.Proofs.SimRecord
+import MbVerif.Proofs.SimCap
 import MbVerif.Proofs.SimFuel
 import MbVerif.Spec.C19
 
@@ -41,11 +44,11 @@ theorem C19_filters_are_projections (budget : Nat) (mc ms : List Machine) (sq : 
     have hl := loop_filter_indep ρ a a.unfiltered (sameButFilters_unfiltered a) hcap (loopFuel a budget) st 0 0 0
     rw [← hl]
     have hgood := loop_stream_sorted ρ a (loopFuel a budget) st 0 0
-    cases hs : (loop ρ a (loopFuel a budget) st 0 0).stop with
-    | fault f => simp
-    | queueEmpty | maxTrace | maxIter | noNormal | loopFuel =>
-      simp only []
-      rw [record_eq_filter a _ hgood.2, record_eq_filter a.unfiltered _ hgood.2]
+    rw [finish_trace a _ hgood.2, finish_trace a.unfiltered _ hgood.2]
+    cases (loop ρ a (loopFuel a budget) st 0 0).stop.isFault with
+    | true => simp
+    | false =>
+      simp only [Bool.false_eq_true, if_false]
       have h1 : a.unfiltered.keep = keep false false := rfl
       rw [h1, filter_keep_none]
       exact filter_stream_eq a.onlyNetworkActivity a.onlyClientEvents _ (fun r hr => (hgood.1 r hr).2)
@@ -58,6 +61,45 @@ theorem C19_project_model (budget : Nat) (mc ms : List Machine) (sq : SimQueue) 
       project a.onlyNetworkActivity a.onlyClientEvents 0 (simAdvanced ρ budget mc ms sq a.unfiltered orc).trace := by
   rw [C19_filters_are_projections ρ budget mc ms sq a orc hcap]
   simp [project, takeCap]
+
+/-- **A binding length cap yields a prefix.**  With `max_trace_length = c > 0`, if the uncapped
+    run with the same inputs does not fault, the capped run returns exactly the first `c` events
+    of the uncapped run's trace (same filter settings). -/
+theorem C19_cap_is_prefix (budget : Nat) (mc ms : List Machine) (sq : SimQueue) (a : Args) (orc : σ)
+    (hc : a.maxTraceLength > 0) (hok : ∀ f, (simAdvanced ρ budget mc ms sq a.uncapped orc).stop ≠ .fault f) :
+    (simAdvanced ρ budget mc ms sq a orc).trace =
+      (simAdvanced ρ budget mc ms sq a.uncapped orc).trace.take a.maxTraceLength := by
+  unfold simAdvanced at hok ⊢
+  have hinit : initState ρ mc ms sq a.uncapped orc = initState ρ mc ms sq a orc := rfl
+  rw [hinit] at hok ⊢
+  cases hi : initState ρ mc ms sq a orc with
+  | error f => simp [hi] at hok
+  | ok st =>
+    simp only [hi] at hok
+    simp only []
+    have hfu : loopFuel a.uncapped budget = loopFuel a budget := rfl
+    rw [hfu] at hok ⊢
+    have hrel := loop_cap_prefix ρ a hc (loopFuel a budget) st 0 0 0 hc
+    have hg := loop_stream_sorted ρ a (loopFuel a budget) st 0 0
+    have hg0 := loop_stream_sorted ρ a.uncapped (loopFuel a budget) st 0 0
+    have hnf0 : (loop ρ a.uncapped (loopFuel a budget) st 0 0).stop.isFault = false := by
+      cases hs : (loop ρ a.uncapped (loopFuel a budget) st 0 0).stop with
+      | fault f => exact absurd (by rw [finish_stop, hs]) (hok f)
+      | queueEmpty | maxTrace | maxIter | noNormal | loopFuel => rfl
+    have hnf : (loop ρ a (loopFuel a budget) st 0 0).stop.isFault = false := by
+      cases hs : (loop ρ a (loopFuel a budget) st 0 0).stop with
+      | fault f => rw [hrel.2 f hs] at hnf0; simp [Stop.isFault] at hnf0
+      | queueEmpty | maxTrace | maxIter | noNormal | loopFuel => rfl
+    rw [finish_trace a _ hg.2, finish_trace a.uncapped _ hg0.2, hnf, hnf0]
+    simp only [Bool.false_eq_true, if_false]
+    have hk : a.uncapped.keep = a.keep := rfl
+    rw [hk, hrel.1, Nat.sub_zero, List.map_take]
+
+/-- **Simulated time never moves backwards**: whatever `pick_next` returns is at or after the
+    clock, so the "BUG: next event moves time backwards" test of the main loop cannot fire. -/
+theorem C19_time_never_backwards (fuel : Nat) (st st' : St σ) (e : SimEvent)
+    (h : pickNext fuel st = some (.ok (some e, st'))) : st.now ≤ e.time :=
+  pickNext_time_ge fuel st st' e h
 
 /-- **Function of the inputs.**  With an iteration cap the result does not depend on the model's
     own loop budget: the run is determined by machines, queue, arguments and the oracle alone. -/
@@ -91,10 +133,8 @@ theorem C19_iterations_bounded (budget : Nat) (mc ms : List Machine) (sq : SimQu
     simp only []
     have hf : loopFuel a budget = a.maxSimIterations := by simp [loopFuel, hm]
     have := loop_iters ρ a hm (loopFuel a budget) st 0 0 hm (by rw [hf]; omega)
-    cases hs : (loop ρ a (loopFuel a budget) st 0 0).stop with
-    | fault f => simp; omega
-    | queueEmpty | maxTrace | maxIter | noNormal => simp [hs] at this ⊢; omega
-    | loopFuel => exact absurd hs this.2
+    rw [finish_stream, finish_stop]
+    exact ⟨by omega, this.2⟩
 
 /-- **Length bound**: with `max_trace_length = c > 0` at most `c` events are returned. -/
 theorem C19_length_bounded (budget : Nat) (mc ms : List Machine) (sq : SimQueue) (a : Args) (orc : σ)
@@ -107,13 +147,10 @@ theorem C19_length_bounded (budget : Nat) (mc ms : List Machine) (sq : SimQueue)
     simp only []
     have := loop_cap ρ a hc (loopFuel a budget) st 0 0 hc
     have hgood := loop_stream_sorted ρ a (loopFuel a budget) st 0 0
-    cases hs : (loop ρ a (loopFuel a budget) st 0 0).stop with
-    | fault f => simp
-    | queueEmpty | maxTrace | maxIter | noNormal | loopFuel =>
-      simp only []
-      rw [record_eq_filter a _ hgood.2]
-      simp only [List.length_map]
-      omega
+    rw [finish_trace a _ hgood.2]
+    split
+    · simp
+    · simp only [List.length_map]; omega
 
 /-- **Time never goes back**: the returned trace is ordered by time, and it is the kept part of
     the iteration stream in iteration order (the final sort does nothing). -/
@@ -125,11 +162,10 @@ theorem C19_trace_sorted (budget : Nat) (mc ms : List Machine) (sq : SimQueue) (
   | ok st =>
     simp only []
     have hgood := loop_stream_sorted ρ a (loopFuel a budget) st 0 0
-    cases hs : (loop ρ a (loopFuel a budget) st 0 0).stop with
-    | fault f => simp
-    | queueEmpty | maxTrace | maxIter | noNormal | loopFuel =>
-      simp only []
-      rw [record_eq_filter a _ hgood.2, List.pairwise_map]
+    rw [finish_trace a _ hgood.2]
+    split
+    · simp
+    · rw [List.pairwise_map]
       exact List.Pairwise.filter _ hgood.2
 
 /-! Non-vacuity: a concrete two-packet run without machines (state built directly, so that the
